@@ -45,6 +45,7 @@ class Engine(ExprMixin, CallMixin, BuiltinMixin, VerifyMixin):
         self.notes = []            # things dropped / assumed while executing (for evidence)
         self.prune = True
         self.spec_defs = []
+        self._inst_seen = []
         self._spec_cache = {}
         self._setup_exceptions()
         self._solver = None
